@@ -70,6 +70,12 @@ def check_membership(coarse, fine, shared_atoms=False):
         else:
             # the membership graph is the subgraph of the fine graph: same nodes with the same attributes, induced edges
             diff = [n for n in want if dict(g.nodes[n]) != dict(fine.nodes[n])]
+            if shared_atoms:
+                # an atom shared by several coarse nodes is named once per coarse node at the all-atom level (element +
+                # running index within that node, C12): its 'atomname' in one membership graph need not be the one the fine
+                # graph ends up with
+                diff = [n for n in diff if len(fine.nodes[n].get('fragid') or []) < 2
+                        or {k: v for k, v in g.nodes[n].items() if k != 'atomname'} != {k: v for k, v in fine.nodes[n].items() if k != 'atomname'}]
             if diff:
                 n = diff[0]
                 out.append(('coarse-graph-node-attributes', 'coarse node %r: graph node %r has %s, the fine node has %s' % (
